@@ -353,7 +353,7 @@ def parallel(res, fn, jobs):
 
 def correspondence(res):
     W = 14
-    n = 120 if res.tier == "quick" else 700
+    n = 120 if res.tier == "quick" else 360
     terms, infos = parallel(res, run_worker, [(res.seed * 100 + w, max(1, n // W), 3) for w in range(W)])
     codes = common.run_case_codes("C02", "corr", HEADER, terms, "c02_corr", chunk=80, ctype=CT)
     bad = [i for i, v in enumerate(codes) if v != 1]
@@ -368,7 +368,7 @@ def correspondence(res):
         broken = Broken(f"correspondence evaluator: model and implementation differ (or oracle incomplete) on {len(bad)}/{len(codes)} cases",
                         repr(infos[bad[0]]))
     # RepetitionBoundsConstraint.fitness vs its model
-    nrb = 56 if res.tier == "quick" else 700
+    nrb = 56 if res.tier == "quick" else 280
     rterms, rinfos = parallel(res, rb_worker, [(res.seed * 100 + 80 + w, max(1, nrb // W)) for w in range(W)])
     rcodes = common.run_case_codes("C02", "rb", RB_HEADER, rterms, "c02_rb", chunk=80, ctype=RB_T)
     rbad = [i for i, v in enumerate(rcodes) if v != 1]
@@ -376,7 +376,7 @@ def correspondence(res):
     if rbad:
         raise Broken(f"correspondence: RepetitionBoundsConstraint.fitness differs from its model on {len(rbad)}/{len(rcodes)} (tree, constraint) pairs",
                      repr(rinfos[rbad[0]]))
-    e2e(res, 70 if res.tier == "quick" else 420)
+    e2e(res, 70 if res.tier == "quick" else 210)
     if broken:
         raise broken
 
